@@ -89,7 +89,9 @@ class Gen:
         while len(ops) < n:
             k = r.choices(kinds, [w[x] for x in kinds])[0]
             g = 5 if r.random() < p.get("missing", 0.08) else r.choice(GIDS)
-            if k == "group": ops.append(self.group(within=within))
+            if k == "group":
+                ops.append(self.group(within=within))
+                if p.get("dump_after_group"): ops.append("dump")
             elif k == "message": ops.append(self.message(within=within))
             elif k == "pm": ops.append(self.pm())
             elif k == "welcome": ops.append(self.welcome(within=within))
@@ -194,6 +196,10 @@ PROFILES = {
                         "snap_create": 4, "snap_rollback": 4, "snap_release": 2, "snap_prune": 2, "inval": 4, "find": 8, "retake": 2,
                         "queries": 8, "retry": 4, "tag": 5, "messages": 6, "last": 3, "sweep": 2, "updlast": 2, "dump": 1},
             "within": True, "tagmodes": [0, 0, 1], "offsets": [TWO63, TWO64 - 1], "all_groups": True, "missing": 0.04},
+    # C08 routing: records re-saved under ids from a small pool (rotation onto a fresh id, back to an old one,
+    # onto an id ANOTHER group holds), rollbacks in between, the whole by-nostr-id index probed after every save
+    "C08route": {"weights": {"group": 30, "find": 6, "relays": 2, "snap_create": 5, "snap_rollback": 5, "snap_release": 1, "message": 2, "mls": 2},
+                 "within": True, "dump_around_snap": True, "dump_after_group": True, "all_groups": True, "missing": 0.0},
     "C06store": {"weights": {"group": 6, "message": 8, "welcome": 5, "relays": 5, "messages": 10, "queries": 5, "find": 3},
                  "within": False, "offsets": [TWO63 - 1, TWO63, TWO64 - 1, TWO64 - 2], "longrelays": [1100, 512, 513]},
 }
@@ -505,6 +511,63 @@ def oracle_c09(cases):
                                 fail(c, k, "rollback-not-exact", f"{f} after rollback {g2[f][:100]} != at snapshot time {g0[f][:100]}")
                     if d0["mls"].get(gid, []) != after["mls"].get(gid, []):
                         fail(c, k, "rollback-not-exact", "MLS rows differ from snapshot time")
+    return fails, stats
+
+def oracle_c08_routing(cases):
+    """C08 (routing half) on the implementation alone: in EVERY dumped state, for every nostr group id of the pool,
+    find_group_by_nostr_group_id answers the group whose stored record currently carries that id — a fresh copy of
+    it, never another group, never nothing — and no two records carry the same id."""
+    fails = []
+    stats = {"dumps_checked": 0, "ids_probed": 0, "rotations": 0, "collisions_refused": 0}
+    def fail(c, k, sig, what):
+        fails.append({"kind": "oracle", "signature": sig, "what": f"{c['id']}[{c['backend']}] step {k} `{c['ops'][k]}`: {what}",
+                      "replay_body": case_text(c, min(k + 1, len(c['ops']) - 1), what), "case": c, "step": k})
+    for c in cases:
+        ops, out = c["ops"], c["impl"]
+        last_write = None
+        cur_nid = {}
+        restored = set()      # nostr ids whose sharing / mis-routing first appeared right after a rollback (open finding), while it lasts
+        for k, op in enumerate(ops):
+            t = op.split()
+            if t[0] == "save_group":
+                last_write = k
+                if out[k] == "ok":
+                    if t[1] in cur_nid and cur_nid[t[1]] != t[2]: stats["rotations"] += 1
+                    cur_nid[t[1]] = t[2]
+                elif out[k] == "err" and any(g != t[1] and n == t[2] for g, n in cur_nid.items()):
+                    stats["collisions_refused"] += 1
+            elif t[0] == "snap_rollback":
+                last_write = k
+            if op != "dump" or out[k] in ("panic", "err"):
+                continue
+            d = parse_dump(out[k])
+            stats["dumps_checked"] += 1
+            after_rollback = last_write is not None and ops[last_write].startswith("snap_rollback")
+            at = last_write if last_write is not None else k
+            bad_now = set()
+            for nid, ans in d["index"].items():
+                stats["ids_probed"] += 1
+                holders = [g for g, gd in d["groups"].items() if gd["rec"][2:].split(",")[1] == nid]
+                wrong = len(holders) > 1 or (ans != "-" and int(ans.split(".")[0]) not in holders) or (ans == "-" and holders)
+                if wrong:
+                    bad_now.add(nid)
+                    if after_rollback and nid not in restored:
+                        restored.add(nid)
+                after_rollback_nid = nid in restored
+                if len(holders) > 1:
+                    fail(c, at, "restore-nostr-id-collision" if after_rollback_nid else "routing-id-shared",
+                         f"groups {holders} both carry nostr group id {nid}: events tagged with it can reach only one of them")
+                    continue
+                if ans == "-" and holders:
+                    fail(c, at, "restore-nostr-id-collision" if after_rollback_nid else "nostr-index-lost-group", f"nostr id {nid} finds nothing but group {holders} carries it")
+                if ans != "-":
+                    g_ans = int(ans.split(".")[0])
+                    if g_ans not in holders:
+                        fail(c, at, "restore-nostr-id-collision" if after_rollback_nid else "routing-to-other-group",
+                             f"nostr id {nid} routes to group {g_ans} which does not carry it (carried by {holders})")
+                    elif d["groups"][g_ans]["rec"][2:].split(",")[9] != ans.split(".")[1]:
+                        fail(c, at, "nostr-index-stale", f"nostr id {nid} answers a stale copy of group {g_ans}")
+            restored &= bad_now
     return fails, stats
 
 def oracle_c10(cases):
